@@ -32,6 +32,22 @@ FIRST_LINE_CASES = ['\ufeff# bom heading', '\x00nul', '   indented three', '    
                     '<!--', '|a|b|', '\\', ' ', '\u00a0nbsp', '\u200bzwsp', '\U0001F600 astral', 'x' * 300]
 
 
+# open containers x what the unterminated last line can be: inside verbatim containers a whitespace-only or marker-like last
+# line is content, not a separator
+OPEN_CONTEXTS = ['```\nfoo\n', '~~~ info\nfoo\n', '<!-- c\n', '<pre>\nx\n', '<script>\n', '<?php\n', '<![CDATA[\n', '<div>\n', '    code\n',
+                 '- item\n', '- item\n\n', '1. a\n   ```\n', '> q\n', '> ```\n> x\n', 'para\n', 'a | b\n--|--\n', '[r]: /u\n', '# h\n', 'Title\n']
+LAST_LINES = ['', ' ', '  ', '   ', '    ', '     x', '\t', ' \t ', 'x  ', 'x\\', 'x ', '```', '~~~', '-->', '</pre>', '?>', ']]>', '---', '===', '-', '>',
+              '  > ', '1.', '|', '\\', '\u00a0', '\u3000', '\x00']
+
+
+def context_texts():
+    out = []
+    for c in OPEN_CONTEXTS:
+        for l in LAST_LINES:
+            out.append(c + l)
+    return [t for t in out if CW.in_domain(t)]
+
+
 def corpus():
     """Inputs taken from the tree under test (data only): spec examples and sample documents, filtered to the domain."""
     texts = []
@@ -128,7 +144,14 @@ def gen_scenario(rng, corp, with_fault):
     if n_files > 1 and rng.random() < 0.3:
         texts[-1] = texts[0]                     # the same file twice
     names = ['f%d.md' % i for i in range(n_files)]
-    if rng.random() < 0.25:
+    if n_files > 1 and rng.random() < 0.12:
+        # names with shell/glob metacharacters next to the plain names they could be confused with
+        base = ['n%d.md' % i for i in range(n_files)]
+        specials = ['n[%d].md', 'n?%d.md', '*%d.md', 'n%d.m[d]', '~n%d.md', '$HOME%d.md', "q'%d.md", 'n%d.md ', '-%d.md']
+        names = list(base)
+        j = rng.randrange(1, n_files)
+        names[j] = specials[rng.randrange(len(specials))] % (j - 1)
+    elif rng.random() < 0.25:
         forms = ['./rel%d.md', 'sub/dir/f%d.md', 'with space %d.md', 'ünï%d.md', 'UPPER%d.MD', 'noext%d', '../up%d.md', 'f%d.markdown']
         names = [forms[rng.randrange(len(forms))] % i for i in range(n_files)]
     if n_files > 1 and texts[-1] is texts[0] and rng.random() < 0.5:
